@@ -167,7 +167,7 @@ def run_cli_e2e(case, ctx: Ctx) -> None:
         record = os.path.join(tmp, "record.json")
         os.environ["VF_CLI_RECORD"] = record
         targs = [TOKENS[i] for i in case["targs"]]
-        sub = lambda t: t.replace("=p", "=" + dbdir).replace("-dp", "-d" + dbdir) if t in ("--db_path=p", "-dp") else (dbdir if t == "p" else t)  # noqa: E731
+        sub = lambda t: {"--db_path=p": "--db_path=" + dbdir, "-dp": "-d" + dbdir, "p": dbdir}.get(t, t)  # noqa: E731  (whole tokens only)
         dbargs = [sub(t) for t in DB_FORMS[db]]
         kind = TGT_FORMS[tgt][1]
         tname = HELPER_MOD if kind == "module" else script
